@@ -22,9 +22,13 @@ def main(ctx):
     nprog, nsteps, variants = (24, 220, 15) if ctx.quick else (300, 500, 30)
     seeds = [ctx.seed * 1000 + i for i in range(nprog)]
 
+    # a few almost empty databases too (nothing or a handful of writes, all still in the journal, no table yet)
+    tiny = {ctx.seed * 1000 + 900 + i: i for i in range(4 if ctx.quick else 12)}
+    seeds += list(tiny)
+
     def drive(seed):
         out = ctx.path("recover-%d.ndjson" % seed)
-        args = [exe, "-seed", str(seed), "-n", str(nsteps), "-out", out, "-variants", str(variants)]
+        args = [exe, "-seed", str(seed), "-n", str(tiny.get(seed, nsteps) if seed in tiny else nsteps), "-out", out, "-variants", str(variants)]
         s = run_driver(args, timeout=1200)
         s["path"] = out
         s["cmd"] = " ".join(args)
